@@ -576,7 +576,7 @@ class C19(Check):
         captured = []
         g = ace.ACEGenerator.__new__(ace.ACEGenerator)
         g.run_infos = [{}]
-        g._result_lines = lambda termini=None: (captured.append(termini), [])[1]
+        g._result_lines = lambda termini=None, **kw: (captured.append(termini), [])[1]
         ace.ACEGenerator._tsdb_receive(g)
         gt = [t.pattern for t in captured[0]]
         rows = [("parserTermini", "ACEParser._termini", [t.pattern for t in ace.ACEParser._termini]),
